@@ -30,13 +30,14 @@ var c14OptRows = map[string][]string{
 }
 
 type c14Stim struct {
-	M    mSchema
-	TL1  string
-	TL2  string
-	ID   string // directory / package prefix
-	Src  string // "exhaustive" | "simulate"
-	Exit int
-	Out  string
+	M        mSchema
+	TL1      string
+	TL2      string
+	ID       string // directory / package prefix
+	Src      string // "exhaustive" | "simulate"
+	Exit     int
+	Out      string
+	BuildOut string // lines of the batch build output that name this stimulus
 }
 
 func c14Cfg(maxCombs, maxFields int, ns, nameMenu, fieldNames, kinds, maskBits, tagKinds, muts, optRows string) map[string]string {
@@ -46,7 +47,7 @@ func c14Cfg(maxCombs, maxFields int, ns, nameMenu, fieldNames, kinds, maskBits, 
 func c14CfgF(maxCombs, maxFields int, ns, nameMenu, fieldNames, kinds, maskBits, tagKinds, muts, optRows, funcNames string) map[string]string {
 	return map[string]string{
 		"FUNCNAMES": funcNames,
-		"MAXCOMBS": fmt.Sprint(maxCombs), "MAXFIELDS": fmt.Sprint(maxFields), "NAMESPACES": ns, "NAMEMENU": nameMenu,
+		"MAXCOMBS":  fmt.Sprint(maxCombs), "MAXFIELDS": fmt.Sprint(maxFields), "NAMESPACES": ns, "NAMEMENU": nameMenu,
 		"FIELDNAMES": fieldNames, "KINDS": kinds, "MASKBITS": maskBits, "TAGKINDS": tagKinds, "TL2": "FALSE",
 		"MUTATIONS": muts, "OPTROWS": optRows,
 	}
@@ -160,8 +161,8 @@ func runC14(c *core.Ctx) error {
 			pool = append(pool, m)
 		}
 		rng.Shuffle(len(pool), func(i, j int) { pool[i], pool[j] = pool[j], pool[i] })
-		if ci == 1 && !c.Thorough() && len(pool) > 80 {
-			pool = pool[:80]
+		if n := c.Pick(80, 800); ci == 1 && len(pool) > n {
+			pool = pool[:n]
 		}
 		coreStims = append(coreStims, pool...)
 	}
@@ -224,7 +225,7 @@ func runC14(c *core.Ctx) error {
 	c.Logf("TLC simulation: %d states checked, %d distinct schemas in %d strata (%v)", sim.Generated, nSim, len(strata), sim.Wall)
 
 	// 3. choose the stimuli
-	want := c.Pick(300, 2400)
+	want := c.Pick(300, 2000)
 	var stims []*c14Stim
 	rng.Shuffle(len(exhStims), func(i, j int) { exhStims[i], exhStims[j] = exhStims[j], exhStims[i] })
 	rng.Shuffle(len(catStims), func(i, j int) { catStims[i], catStims[j] = catStims[j], catStims[i] })
@@ -331,7 +332,7 @@ func runC14(c *core.Ctx) error {
 		byMut[s.M.Mut]++
 		outdir := filepath.Join(mod, s.ID)
 		key := func(class string) string {
-			return fmt.Sprintf("%s/%s/%s/%s", class, s.M.Opt, s.M.Mut, shortHash([]byte(s.TL1 + s.TL2)))
+			return fmt.Sprintf("%s/%s/%s/%s", class, s.M.Opt, s.M.Mut, shortHash([]byte(s.TL1+s.TL2)))
 		}
 		replay := map[string]any{"tl1": s.TL1, "tl2": s.TL2, "opt": s.M.Opt, "flags": c14OptRows[s.M.Opt], "model": s.M}
 		agree[fmt.Sprintf("model_accepted=%v,impl_accepted=%v", s.M.Accepted, s.Exit == 0)]++
@@ -385,7 +386,7 @@ func runC14(c *core.Ctx) error {
 	// catalogue/exhaustive ones and a coverage-driven selection (every shape, every option row, every
 	// shape x option-row pair first, then seeded random) are compiled
 	acceptedAll := len(toBuild)
-	toBuild = c14SelectBuilds(toBuild, c.Pick(60, 700), rng)
+	toBuild = c14SelectBuilds(toBuild, c.Pick(60, 500), rng)
 	c.Set("accepted_selected_for_build", len(toBuild))
 	c.Set("accepted_not_compiled", acceptedAll-len(toBuild))
 	kindCover = map[string]int{}
@@ -403,7 +404,14 @@ func runC14(c *core.Ctx) error {
 		return err
 	}
 	built := len(toBuild) - len(failing)
+	reportedColl := map[string]bool{}
+	sameClass := 0
 	for _, s := range failing {
+		// a class already reproduced and reported in this run is not reproduced again
+		if name := methodCollision(s.BuildOut, &s.M); name != "" && reportedColl[name] {
+			sameClass++
+			continue
+		}
 		// reproduce: regenerate into a fresh directory and build it alone
 		again := *s
 		again.ID = s.ID + "r"
@@ -414,6 +422,7 @@ func runC14(c *core.Ctx) error {
 			key := fmt.Sprintf("build/%s/%s/%s", s.M.Opt, strings.Join(kindsOf(&s.M), ","), shortHash([]byte(s.TL1+s.TL2)))
 			if name := methodCollision(out, &s.M); name != "" {
 				key = "build/field-name-collides-with-generated-method/" + name
+				reportedColl[name] = true
 			}
 			c.Violate(key,
 				"tl2gen accepted the schema (exit 0) but the generated Go code does not build: "+tail(out, 900),
@@ -423,6 +432,7 @@ func runC14(c *core.Ctx) error {
 		}
 	}
 	c.Set("accepted_and_built", built)
+	c.Set("build_failures_of_an_already_reported_class", sameClass)
 	c.Add("traces_validated_against_impl", len(stims))
 	c.Set("distinct_nontrivial", len(stims))
 	for i, s := range stims {
@@ -599,6 +609,13 @@ func c14Build(c *core.Ctx, mod string, ss []*c14Stim) ([]*c14Stim, error) {
 		}
 		for id := range found {
 			if s, ok := byID[id]; ok {
+				var own []string
+				for _, ln := range strings.Split(out, "\n") {
+					if strings.Contains(ln, id+"/") {
+						own = append(own, ln)
+					}
+				}
+				s.BuildOut = strings.Join(own, "\n")
 				failing = append(failing, s)
 			}
 		}
